@@ -56,6 +56,28 @@ H5 = {
  "C18-7": "caught at the first attempt",
  "C18-8": "first attempt: broken proof only (SrcEquivSgxM: the translated SGX echo is no longer the model's); caught with an input after adding the finer ways an echo can be wrong (right payload under a wrong class / command byte, a byte short, a byte long)",
 }
+H6 = {
+ "C01-7": "broken proof only (SrcEquivDongleM: _send_data_in_chunks is no longer the model's chunk loop); a failing input needs a device that consumed a chunk whose answer was then lost - the simulators answer or fail, they do not do both",
+ "C01-8": "caught at the first attempt",
+ "C05-7": "caught at the first attempt",
+ "C05-8": "broken proof only (SrcEquivBlockM: _do_block_operation); ten-brother lists are among the generated cases, but the oracle has no independent notion of 'the middleware gave up on a legal request' (it demands 0/1 exactly when the device reported success); forcing such a case into every run was tried and withdrawn: under seeded C05-4 it made the check itself run without end",
+ "C06-7": "missed (every declared tweak was 32 bytes); caught after chains declare - and are genuinely signed under - tweaks of 1..40 bytes",
+ "C06-8": "caught at the first attempt",
+ "C07-7": "broken tie only (correspondence: the foreign chain that ships its own root is judged differently by model and implementation); the oracle compares verdicts, and that chain is rejected further down under the change too",
+ "C07-8": "missed (report data was corrupted or moved, never reduced); caught after adding genuinely signed report data that is all zeroes or a zero-padded prefix of the hash",
+ "C08-7": "first attempt: the plugin crashed on a negative printed number after the oracle had found the violation (tie only); caught with an input after the rendering step reports instead of asserting",
+ "C08-8": "caught at the first attempt",
+ "C09-7": "caught at the first attempt", "C09-8": "caught at the first attempt",
+ "C10-7": "missed (every reply could be written); caught after adding the repair-time change with the client gone before its reply (the write fails)",
+ "C10-8": "caught at the first attempt",
+ "C14-7": "caught at the first attempt", "C14-8": "caught at the first attempt",
+ "C16-7": "caught at the first attempt",
+ "C16-8": "missed (C16 ran the real link checks on garbage signatures only, so no certifier was ever reached as a key); caught after genuinely signed chains and all their alterations go through the real link checks",
+ "C17-7": "first attempt: broken proof only (SrcEquivAdmin); caught with an input after adding 64-character hash texts that decode to fewer than 32 bytes",
+ "C17-8": "caught at the first attempt",
+ "C19-7": "caught at the first attempt",
+ "C19-8": "missed (the key bytes appear nowhere literally); caught after 'written nowhere' also covers two signatures of one run sharing r, from which the key follows by arithmetic",
+}
 res = {}
 for line in open(sys.argv[1]):
     m = re.match(r"(\S+)\s+(caught \(failing input\)|caught \(tie only\)|MISSED)(.*)", line)
@@ -75,12 +97,15 @@ for i in sorted(os.listdir(os.path.join(HERE, "seeded"))):
     m["result"] = {"caught (failing input)": "reported by the quick check (exit 1, VIOLATION line) with a failing input",
                    "caught (tie only)": "reported by the quick check (exit 1, VIOLATION ... no-failing-input-found): broken tie only",
                    "MISSED": "NOT reported"}[st]
-    if m.get("round") in (4, 5) or m.get("caught_by") in (None, "pending", ""):
+    if m.get("round") in (4, 5, 6) or m.get("caught_by") in (None, "pending", ""):
         m["caught_by"] = ("oracle %s" % key) if st.startswith("caught (failing") else ("tie: %s" % key)
         pref = "-".join(i.split("-")[:2])
         if pref in H4:
             m["history"] = H4[pref]
-        if pref in H5:
+        if pref in H6 and m.get("round") == 6:
+            m["history"] = H6[pref]
+            m["checks_run"] = "tools/par_seeds.py (scratch copy of /verif + detached worktree of /repo: git apply; checks/check.py <property> --tier quick; git checkout -- .)"
+        if pref in H5 and m.get("round") == 5:
             m["history"] = H5[pref]
             m["checks_run"] = "tools/par_seeds.py (scratch copy of /verif + detached worktree of /repo: git apply; checks/check.py <property> --tier quick; git checkout -- .)"
     json.dump(m, open(p, "w"), indent=1)
